@@ -89,6 +89,7 @@ def import_geogram_ascii(path):
     data = None
     with open(path, 'r') as f:
         data = [x.split("#")[0].strip() for x in f.readlines()] # split to remove comments
+        data = [x for x in data if x] # ignore blank lines and lines that only hold a comment
 
     # Detect chunk separators
     chunk_sep = [] # int values for header lines -> separators of data
